@@ -1,7 +1,7 @@
 """C13 — ill-formed schemas / models rejected; accepted models terminate (DESIGN §4 C13)."""
 import ast
 
-from .common import ctx, returns, calls_in_ctx, site, reach_from_succ, truthy_label
+from .common import ctx, returns, calls_in_ctx, site, reach_from_succ, truthy_label, full_text
 from .lvs import CK, CP, docs_sanity_bullets, raising_edge, cmp_sides
 from ..flow import callee_attr
 from ..loader import AnalysisError, norm
@@ -56,7 +56,23 @@ def run(R):
                                                (cur, ast.Lt, 'len(self.model.nodes)'): False}.get(cmp_sides(t) or ()), 'destination >= number of nodes')
     guard(df, 'C13.GRD.1', bullets[3], lambda t: {('key_node_id', ast.GtE, 'len(self.model.nodes)'): True,
                                                ('key_node_id', ast.Lt, 'len(self.model.nodes)'): False}.get(cmp_sides(t) or ()), 'signer id >= number of nodes')
-    guard(df, 'C13.GRD.1', bullets[4], lambda t: {('branch', ast.NotEq, '1'): True, ('branch', ast.Eq, '1'): False}.get(cmp_sides(t) or ()), 'option arity')
+    def arity_expr(t):
+        """the `[...].count(True)` call compared with 1 in test t (directly or through a local), else None"""
+        if not (isinstance(t, ast.Compare) and len(t.ops) == 1 and isinstance(t.ops[0], (ast.Eq, ast.NotEq))):
+            return None
+        sides = [t.left, t.comparators[0]]
+        one = [x for x in sides if isinstance(x, ast.Constant) and x.value == 1]
+        oth = [x for x in sides if x not in one]
+        if len(one) != 1 or len(oth) != 1:
+            return None
+        try:
+            e = ast.parse(full_text(df, oth[0]), mode='eval').body
+        except SyntaxError:
+            return None
+        if isinstance(e, ast.Call) and callee_attr(e) == 'count' and isinstance(e.func.value, ast.List):
+            return e
+        return None
+    guard(df, 'C13.GRD.1', bullets[4], lambda t: (isinstance(t.ops[0], ast.NotEq) if arity_expr(t) is not None else None), 'option arity')
     guard(df, 'C13.GRD.1', bullets[5], lambda t: {('node.parent', ast.NotEq, par): True, (par, ast.NotEq, 'node.parent'): True}.get(cmp_sides(t) or ()), 'parent link')
     # the unconditional guards lie on every path into the walk; the parent guard may be skipped only for the start node (par is None)
     loops0 = [n for n in df.cfg.nodes if n.kind == 'for']
@@ -75,7 +91,7 @@ def run(R):
             elif ts:
                 R.ok('C13.GRD.1', inst, site(df, ts[0].ast))
     # the arity count really counts the three alternatives
-    br = [v for n in df.cfg.nodes for (nm, v) in df.cfg.defs_of(n) if nm == 'branch']
+    br = [e for e in (arity_expr(t.ast) for t in df.cfg.nodes if t.kind == 'test') if e is not None]
     inst = df.qual + ' :: option arity counts value / tag / fn'
     okb = False
     if len(br) == 1 and isinstance(br[0], ast.Call) and callee_attr(br[0]) == 'count' and isinstance(br[0].func.value, ast.List):
